@@ -604,6 +604,19 @@ def decide_case(case, opts):
             if ok:
                 res["validated"] += 1
             else:
+                # the symbolic run and the un-instrumented run disagree at this point.  Before blaming the shim, let the
+                # plain run speak for itself: if the real code violates the case's oracle at this very point, that is a
+                # reproducing counterexample (found by the divergence, confirmed without the engine).
+                cand = {"label": "plain run at the explored point", "kind": "value", "point": _clean(pr.model),
+                        "detail": "symbolic and plain run diverge (%s); the plain run is judged by the oracle" % why[:160]}
+                try:
+                    rep = _replay(case, cand, uses_rng) if pr.outcome is not None and pr.outcome.vjp is None else (False, "")
+                except Exception as e:  # noqa: BLE001
+                    rep = (False, "replay failed: %r" % (e,))
+                if rep[0]:
+                    cand["replay"] = rep[1]
+                    res["violations"].append(cand)
+                    continue
                 res["inconclusive"].append("trace validation failed: " + why)
                 res["status"] = "harness"
                 continue
